@@ -12,7 +12,9 @@ ob = Registry()
 WAL = '_default_wal_handler'
 
 
-@ob('C17.1', 'ORD/TYPESTATE', 'process_event calls the WAL handler exactly once on every normal path, after _execute_handlers returned, for the event being processed')
+@ob('C17.1', 'ORD/TYPESTATE', 'every processed event gets exactly one WAL call, after its handlers ran: process_event calls the WAL handler exactly once on every normal path after '
+    '_execute_handlers returned — or, when a boolean parameter (default: write) lets a caller take the write over, writes none then and every caller that switches it off awaits the WAL '
+    'handler for that event itself on every normal path after the call')
 def c17_1(c: Ctx) -> None:
     u = c.unit(SVC, 'EventBus.process_event')
     g = c.cfg(u)
